@@ -310,7 +310,14 @@ type killWriter struct {
 
 func (w *killWriter) Write(p []byte) (int, error) {
 	r := w.r
+	r.wmu.Lock()
 	r.warcWrites++
+	seq := r.warcWrites
+	r.wmu.Unlock()
+	if r.parkWarcWrites {
+		// the scheduler decides when each write(2) to a WARC file happens
+		r.k.Park(fmt.Sprintf("warc.write#%05d", seq), "warc.write", len(p))
+	}
 	if r.killAtWrite > 0 && r.warcWrites == r.killAtWrite {
 		n := len(p)
 		if r.killTorn >= 0 && r.killTorn < n {
